@@ -489,11 +489,15 @@ impl AddressLookupServices {
     /// If there is historical Address Lookup data, it will be published immediately on this service.
     pub fn add_boxed(&self, service: Box<dyn AddressLookup>) {
         {
+            #[cfg(iroh_verif)]
+            crate::verif_hooks::pause::point("add:lock-last-read");
             let data = self.last_data.read().expect("poisoned");
             if let Some(data) = &*data {
                 service.publish(data)
             }
         }
+        #[cfg(iroh_verif)]
+        crate::verif_hooks::pause::point("add:lock-services-write");
         self.services.write().expect("poisoned").push(service);
     }
 
@@ -519,11 +523,17 @@ impl AddressLookupServices {
             Some(filter) => data.apply_filter(filter),
             None => Cow::Borrowed(data),
         };
+        #[cfg(iroh_verif)]
+        crate::verif_hooks::pause::point("publish:lock-services-read");
         let services = self.services.read().expect("poisoned");
         for service in &*services {
+            #[cfg(iroh_verif)]
+            crate::verif_hooks::pause::point("publish:service");
             service.publish(&data);
         }
 
+        #[cfg(iroh_verif)]
+        crate::verif_hooks::pause::point("publish:lock-last-write");
         self.last_data
             .write()
             .expect("poisoned")
@@ -645,6 +655,49 @@ impl Stream for AddressLookupStream {
             }
         };
         Poll::Ready(item)
+    }
+}
+
+/// Verification hooks (only with `--cfg iroh_verif`): reach the crate-private
+/// [`AddressLookupServices::publish`], read the last published data, and probe the
+/// two locks of the registry without blocking.
+#[cfg(iroh_verif)]
+pub mod verif_hooks {
+    use super::{AddressLookupServices, EndpointData};
+
+    /// One of the two locks of [`AddressLookupServices`] a pause point is about to take.
+    #[derive(Debug, Clone, Copy, PartialEq, Eq)]
+    pub enum Lock {
+        /// `services`, shared.
+        ServicesRead,
+        /// `services`, exclusive.
+        ServicesWrite,
+        /// `last_data`, shared.
+        LastRead,
+        /// `last_data`, exclusive.
+        LastWrite,
+    }
+
+    /// Calls the crate-private `AddressLookupServices::publish`.
+    pub fn publish(services: &AddressLookupServices, data: &EndpointData) {
+        services.publish(data)
+    }
+
+    /// Returns a copy of the data last published (`last_data`), without blocking;
+    /// the outer `None` means the lock is held exclusively right now.
+    pub fn last_data(services: &AddressLookupServices) -> Option<Option<EndpointData>> {
+        services.last_data.try_read().ok().map(|g| g.clone())
+    }
+
+    /// Whether `lock` could be taken right now without blocking (`try_read` / `try_write`;
+    /// the guard is dropped at once).
+    pub fn can_lock(services: &AddressLookupServices, lock: Lock) -> bool {
+        match lock {
+            Lock::ServicesRead => services.services.try_read().is_ok(),
+            Lock::ServicesWrite => services.services.try_write().is_ok(),
+            Lock::LastRead => services.last_data.try_read().is_ok(),
+            Lock::LastWrite => services.last_data.try_write().is_ok(),
+        }
     }
 }
 
